@@ -17,6 +17,10 @@
 //
 //	sup    supervisor: runs the cases file in child processes, restarting after a deadlock
 //	child  executes cases [from, ...) sequentially, appending events to -out
+//
+// case modes: proto (TLC walks of MCLifecycleGen, command by command), free (races), nproto (TLC walks
+// of MCNestedGen: the outer context holds a resources.NewNested resource around 2-3 inner contexts, each
+// gated like the outer one; commands ienter:<i> / ifinish:<i>:<kind> move inner context i).
 package main
 
 import (
@@ -55,11 +59,12 @@ type stopSpec struct {
 
 type caseSpec struct {
 	ID         int        `json:"id"`
-	Mode       string     `json:"mode"` // proto | free
-	Mix        string     `json:"mix"`  // proto: always "maps"; free: leaf | maps | nested | fd | tcp
+	Mode       string     `json:"mode"`  // proto | free | nproto
+	Mix        string     `json:"mix"`   // proto: always "maps"; free: leaf | maps | nested | fd | tcp; nproto: nested2 | nested3
+	Inner      int        `json:"inner"` // nproto: number of inner contexts of the nested resource
 	CloseErr   bool       `json:"closeerr"`
 	Bound      int        `json:"bound"`
-	Steps      []string   `json:"steps"`  // proto: run | stop | enter | finish:<kind> | closeopen
+	Steps      []string   `json:"steps"`  // proto: run | stop | enter | finish:<kind> | closeopen; nproto: + ienter:<i> | ifinish:<i>:<kind>
 	Script     []string   `json:"script"` // free: kinds of the sections in order, then "done"
 	Stops      []stopSpec `json:"stops"`
 	Rerun      bool       `json:"rerun"`
@@ -208,10 +213,20 @@ type thread struct {
 	blocked  bool // stopblocked already logged
 }
 
+// one inner context of the nested resource (nproto mode)
+type innerCtx struct {
+	i               int
+	gateB, gateBody *gate
+	attempts        atomic.Int64
+	budget          int // sections the drain phase still grants this context
+}
+
 type harness struct {
-	cs    caseSpec
-	ctx   *distsys.MPCalContext
-	proto bool
+	cs     caseSpec
+	ctx    *distsys.MPCalContext
+	proto  bool
+	nested bool // nproto mode
+	inner  []*innerCtx
 
 	gateB, gateBody, gateC *gate
 
@@ -252,6 +267,7 @@ type leaf struct {
 	commits  bool
 	closeErr bool
 	lazy     bool // announce as "created" on first use (resources of nested contexts)
+	inner    int  // > 0: resource of inner context <inner> (nproto); its commits are logged as "icommit"
 	used     atomic.Bool
 	failPre  bool
 }
@@ -272,7 +288,9 @@ func (l *leaf) PreCommit(distsys.ArchetypeInterface) chan error {
 	return nil
 }
 func (l *leaf) Commit(distsys.ArchetypeInterface) chan struct{} {
-	if l.commits {
+	if l.inner > 0 {
+		emit(rec{"e": "icommit", "i": l.inner, "res": l.name})
+	} else if l.commits {
 		emit(rec{"e": "commit", "res": l.name})
 	}
 	return nil
@@ -538,8 +556,79 @@ func nestedInner(h *harness, sendCh chan<- tla.Value, receiveCh <-chan tla.Value
 	)}
 }
 
+// ------------------------------------------------------------------ nproto: gated inner contexts
+
+// the FairnessCounter of inner context i is its gate at the loop head, as for the outer context
+type innerCounter struct {
+	h     *harness
+	in    *innerCtx
+	inner distsys.FairnessCounter
+}
+
+func (g *innerCounter) BeginCriticalSection(pc string) {
+	g.inner.BeginCriticalSection(pc)
+	emit(rec{"e": "ibegin", "i": g.in.i, "n": g.in.attempts.Add(1)})
+	g.in.gateB.wait()
+}
+func (g *innerCounter) NextFairnessCounter(id string, c uint) uint {
+	return g.inner.NextFairnessCounter(id, c)
+}
+
+// inner contexts of the nproto cases: one looping label whose body parks on a gate and then commits a write
+// to its resource "c" (kind commit), reaches Done (kind done) or fails an assertion (kind err). They do not
+// serve the nested-archetype request protocol (the outer sections do not use the nested resource), so no
+// timer is ever armed and a hang is visible to the Go runtime's deadlock detector.
+func nestedGated(h *harness, k int) []*distsys.MPCalContext {
+	var out []*distsys.MPCalContext
+	for i := 1; i <= k; i++ {
+		in := &innerCtx{i: i, gateB: newGate(fmt.Sprintf("ibegin%d", i)), gateBody: newGate(fmt.Sprintf("ibody%d", i)),
+			budget: h.cs.Bound + 1}
+		h.inner = append(h.inner, in)
+		body := func(iface distsys.ArchetypeInterface) error {
+			emit(rec{"e": "ienter", "i": in.i})
+			kind := in.gateBody.wait()
+			fin := func(err error) error {
+				emit(rec{"e": "isecend", "i": in.i, "kind": kind})
+				return err
+			}
+			switch kind {
+			case "done":
+				return fin(distsys.ErrDone)
+			case "err":
+				return fin(fmt.Errorf("%w: inner context %d", distsys.ErrAssertionFailed, in.i))
+			}
+			c, err := iface.RequireArchetypeResourceRef("N.c")
+			if err != nil {
+				return fin(err)
+			}
+			if err = iface.Write(c, nil, tla.MakeNumber(int32(in.attempts.Load()))); err != nil {
+				return fin(err)
+			}
+			return fin(iface.Goto("N.loop"))
+		}
+		arch := distsys.MPCalArchetype{
+			Name: "N", Label: "N.loop",
+			RequiredRefParams: []string{"N.c", "N.d"},
+			JumpTable:         distsys.MakeMPCalJumpTable(distsys.MPCalCriticalSection{Name: "N.loop", Body: body}),
+			ProcTable:         distsys.MakeMPCalProcTable(),
+			PreAmble:          func(distsys.ArchetypeInterface) {},
+		}
+		out = append(out, distsys.NewMPCalContext(tla.MakeNumber(int32(10+i)), arch,
+			distsys.SetFairnessCounter(&innerCounter{h: h, in: in, inner: distsys.MakeRoundRobinFairnessCounter()}),
+			distsys.EnsureArchetypeRefParam("c", &leaf{h: h, name: fmt.Sprintf("in%d.c", i), val: tla.MakeNumber(0), inner: i}),
+			distsys.EnsureArchetypeRefParam("d", &leaf{h: h, name: fmt.Sprintf("in%d.d", i), val: tla.MakeNumber(0), inner: i}),
+		))
+	}
+	return out
+}
+
+func (h *harness) emitCase() {
+	emit(rec{"e": "case", "id": h.cs.ID, "mode": h.cs.Mode, "mix": h.cs.Mix, "cfg": h.cfg, "bound": h.cs.Bound})
+}
+
 func newHarness(cs caseSpec) *harness {
-	h := &harness{cs: cs, proto: cs.Mode == "proto", byGid: map[int64]int{}, allDone: make(chan struct{}),
+	h := &harness{cs: cs, proto: cs.Mode == "proto" || cs.Mode == "nproto", nested: cs.Mode == "nproto",
+		byGid: map[int64]int{}, allDone: make(chan struct{}),
 		gateB: newGate("begin"), gateBody: newGate("body"), gateC: newGate("close"),
 		launched: make([]bool, len(cs.Stops))}
 	h.gateB.autoV = func() string { return "" }
@@ -562,7 +651,7 @@ func newHarness(cs caseSpec) *harness {
 		h.gateBody.auto.Store(true)
 		h.gateC.auto.Store(true)
 	}
-	x := &leaf{h: h, name: "x", val: tla.MakeNumber(0), gated: true, commits: true}
+	x := &leaf{h: h, name: "x", val: tla.MakeNumber(0), gated: !h.nested, commits: true}
 	y := &leaf{h: h, name: "y", val: tla.MakeNumber(0), closeErr: cs.CloseErr}
 	cfgs := []distsys.MPCalContextConfigFn{
 		distsys.SetFairnessCounter(&gateCounter{h: h, inner: distsys.MakeRoundRobinFairnessCounter()}),
@@ -587,6 +676,23 @@ func newHarness(cs caseSpec) *harness {
 			distsys.EnsureArchetypeRefParam("h", &counted{inner: resources.NewHashMap(hmap), name: "h"}))
 		h.cfg = append(h.cfg, "m", "h")
 		req = append(req, "A.m", "A.h")
+	}
+	if h.nested {
+		// the inner contexts start running inside NewNested: the case header must be in the log before their events
+		k := cs.Inner
+		if k < 1 {
+			fatal(3, "nproto case %d without inner contexts", cs.ID)
+		}
+		h.cfg = append(h.cfg, "nst")
+		for i := 1; i <= k; i++ {
+			h.cfg = append(h.cfg, fmt.Sprintf("in%d.c", i), fmt.Sprintf("in%d.d", i))
+		}
+		req = append(req, "A.nst")
+		h.emitCase()
+		nst := resources.NewNested(func(chan<- tla.Value, <-chan tla.Value) []*distsys.MPCalContext {
+			return nestedGated(h, k)
+		})
+		cfgs = append(cfgs, distsys.EnsureArchetypeRefParam("nst", &counted{inner: nst, name: "nst"}))
 	}
 	switch cs.Mix {
 	case "nested":
@@ -823,10 +929,27 @@ func (h *harness) settle() {
 			rv = append(rv, "body")
 		case h.gateC.parked.Load() && inFrames(g, "leaf).Close"):
 			rv = append(rv, "gateC")
+		case h.nested && blockedClass(g.status) == "recv" && inFrames(g, "nestedArchetype).Close"):
+			rv = append(rv, "nclose") // Close of the nested resource waits for the results of its inner contexts
 		default:
 			rv = append(rv, blockedClass(g.status))
 			rw = append(rw, g.status+"@"+site(g))
 		}
+	}
+	if h.nested {
+		iv := []string{}
+		for _, in := range h.inner {
+			switch {
+			case in.gateB.parked.Load():
+				iv = append(iv, "gateB")
+			case in.gateBody.parked.Load():
+				iv = append(iv, "body")
+			default:
+				iv = append(iv, "gone") // everything is parked and it is at none of its gates: its Run has returned
+			}
+		}
+		emit(rec{"e": "obs", "s": sv, "r": rv, "rwhere": rw, "i": iv})
+		return
 	}
 	emit(rec{"e": "obs", "s": sv, "r": rv, "rwhere": rw})
 }
@@ -866,6 +989,16 @@ func (h *harness) exec(cmd string) bool {
 		return h.gateBody.release(strings.TrimPrefix(cmd, "finish:"))
 	case cmd == "closeopen":
 		return h.gateC.release("")
+	case strings.HasPrefix(cmd, "ienter:"), strings.HasPrefix(cmd, "ifinish:"):
+		f := strings.Split(cmd, ":")
+		i, err := strconv.Atoi(f[1])
+		if !h.nested || err != nil || i < 1 || i > len(h.inner) {
+			fatal(3, "bad command %q", cmd)
+		}
+		if f[0] == "ienter" {
+			return h.inner[i-1].gateB.release("")
+		}
+		return h.inner[i-1].gateBody.release(f[2])
 	default:
 		fatal(3, "unknown command %q", cmd)
 	}
@@ -883,9 +1016,60 @@ func (h *harness) finishCase() {
 	emit(rec{"e": "end", "why": "complete"})
 }
 
+// drain ends an nproto case without handing control to the code: one gate at a time, and only when every
+// goroutine is parked. The outer context is let go as in proto mode (a section ends with "commit" while a
+// Stop call waits, else with "done"). Once the outer run has begun, every inner context that is still
+// running is granted Bound+1 further sections: a context that was asked to stop leaves at its next loop
+// head, so on a correct tree one section suffices and the budget is never used up. What is still parked
+// afterwards can only be moved by the code under test; the final wait is timer-free, so if calls are
+// outstanding then the Go runtime reports the deadlock.
+func (h *harness) drain() {
+	for n := 0; ; n++ {
+		if n > 400 {
+			fatal(3, "watchdog: drain of case %d does not end", h.cs.ID)
+		}
+		h.settle()
+		moved := false
+		switch {
+		case h.gateB.parked.Load():
+			moved = h.gateB.release("")
+		case h.gateBody.parked.Load():
+			moved = h.gateBody.release(h.gateBody.autoV())
+		case h.attempts.Load() > 0:
+			for _, in := range h.inner {
+				if in.gateBody.parked.Load() {
+					moved = in.gateBody.release("commit")
+				} else if in.gateB.parked.Load() && in.budget > 0 {
+					in.budget--
+					moved = in.gateB.release("")
+				}
+				if moved {
+					break
+				}
+			}
+		}
+		if !moved {
+			return
+		}
+	}
+}
+
 func runCase(cs caseSpec) {
 	h := newHarness(cs)
-	emit(rec{"e": "case", "id": cs.ID, "mode": cs.Mode, "mix": cs.Mix, "cfg": h.cfg, "bound": cs.Bound})
+	if h.nested {
+		h.settle() // the inner contexts run from construction: wait until each is parked at its first gate
+		for i, cmd := range cs.Steps {
+			if !h.exec(cmd) {
+				emit(rec{"e": "note", "what": "drift: command not applicable to the code's state", "cmd": cmd, "step": i})
+				break
+			}
+			h.settle()
+		}
+		h.drain()
+		h.finishCase()
+		return
+	}
+	h.emitCase()
 	if h.proto {
 		for i, cmd := range cs.Steps {
 			if !h.exec(cmd) {
